@@ -15,13 +15,29 @@ RULE = ("(a) histories on real OIDC and OAuth2 providers compared with the Galli
         "user, state+nonce; earlier code pending or redeemed), every token held against the request of the authorization IT was "
         "minted from; (b) oracle-only "
         "histories with JWT access tokens (scope claim inside the JWT), client_credentials, and token exchange (same and other "
-        "client, narrowed/widened scope, access and refresh subject tokens). A history is non-trivial when tokens were minted.")
+        "client, narrowed/widened scope, access and refresh subject tokens); (c) tokens minted by the AUTHORIZATION endpoint itself: "
+        "authorization requests with the response types token / id_token token / code token / code id_token token / code id_token / "
+        "id_token are an operation of the model-compared histories (AuthorizeRT) and of the JWT histories; every artefact of such a "
+        "response (code, front-channel access token, ID Token) is held against the request IT came from - session record, the "
+        "response's scope statement, JWT scope claim (access token and ID Token), introspection - and the hybrid code is redeemed "
+        "and refreshed; (d) the RFC 8707 resource parameter: OIDC and OAuth2 providers whose client database also holds resource-"
+        "server entries (own `scope` list and / or allowed_scopes, one without allowed_scopes) and clients that list scopes, "
+        "resource-indicator policy absent / provider-wide / per client / provider-wide with default arguments at the "
+        "authorization endpoint and absent / provider-wide / per client at the OAuth2 token endpoint; authorization requests of every "
+        "response type naming no / one / several / unknown / not-permitted resources, codes redeemed with and without resource and "
+        "scope parameters, refreshed; the bound of every token is requested ∩ allowed of ITS authorization (a resource never adds a "
+        "scope), the decision (grant, code, access token, ID Token, response statement) is compared with ScopeFlows.authz_decide / "
+        "token_ri_statement. A history is non-trivial when tokens were minted.")
 ASSUMPTIONS = ["a provider whose usage rules are configured per client only sees no cookie-carrying authorization requests in the "
                "model-compared histories (the grant it makes for such a request gets no usage rules at all; the model's lifetimes are per provider); "
                "the oracle-only JWT histories do send them there",
                "token exchange, client_credentials: decided by the oracle on the real endpoints only (not in the Gallina model)",
                "the password grant needs a password-checking authentication method that the harness provider does not configure: not exercised",
-               "client authentication succeeds for the authenticating client (C01)"]
+               "client authentication succeeds for the authenticating client (C01)",
+               "a cookie-carrying authorization request always has response_type=code; after an implicit / hybrid authorization it "
+               "never re-sends that authorization's nonce (it differs from the stored request by its response type anyway)",
+               "the resource parameter is exercised by the oracle flows and the decision function ScopeFlows.authz_decide, not inside "
+               "Model/Session.v; the OAuth2 flavour sees no id_token response types"]
 
 DEFAULT_ALLOWED = ["openid", "profile", "email", "address", "phone", "offline_access"]
 
@@ -31,8 +47,9 @@ def allowed(rs, client):
 
 
 class ScopeOracle:
-    def __init__(self, ctx):
+    def __init__(self, ctx, res=None):
         self.ctx = ctx
+        self.res = res           # the resource-server registrations / policies of the provider (oracle flows of class (d)), or None
         self.hist = []
         self.requested = {}      # grant index -> requested scopes (from the authorization op that created the grant)
         self._root = {}
@@ -52,23 +69,95 @@ class ScopeOracle:
         while t.token_class != "authorization_code" and t.based_on in rs.tokens and seen < 1000:
             t = rs.tokobj[rs.tokens.index(t.based_on)]
             seen += 1
-        if t.token_class == "authorization_code":
+        if t.token_class == "authorization_code" or not t.based_on:
+            # a code, or a token the authorization endpoint minted by itself (implicit / hybrid): based on nothing
             return next((i for i, o in enumerate(rs.tokobj) if o is t), None)
         return None
+
+    @staticmethod
+    def jwt_payload(value):
+        return json.loads(base64.urlsafe_b64decode(value.split(".")[1] + "=="))
+
+    def jwt_claim(self, rs, idx, what):
+        """a token that is a signed JWT (JWT access token, ID Token): the scope claim it carries is its session scope"""
+        t = rs.tokobj[idx]
+        if t.value.count(".") != 2:
+            return
+        try:
+            payload = self.jwt_payload(t.value)
+        except Exception as e:      # noqa
+            self.ctx.notes.append("could not decode a JWT %s: %r" % (t.token_class, e))
+            return
+        if "scope" not in payload and t.token_class == "id_token":
+            return
+        js = payload.get("scope", [])
+        js = js.split(" ") if isinstance(js, str) else js
+        if sorted(js) != sorted(t.scope):
+            self.ctx.violation("view-jwt", "%s: JWT scope claim %r of the %s, its session scope %r" % (what, js, t.token_class, t.scope), self.hist)
+        self.ctx.count("jwt-scope-checked" if t.token_class != "id_token" else "jwt-scope-checked:id_token")
+
+    def front_views(self, rs, op, out):
+        """the response of an implicit / hybrid authorization: what it states about the access token it carries, what that
+        token's record, its JWT claim and introspection say; the ID Token's claim"""
+        slots = out[3]
+        client, scope = op[2], op[3]
+        bound = set(x for x in scope if x in allowed(rs, client))
+        named = list(op[5]) if len(op) > 5 and op[5] else []
+        for key, i in slots.items():
+            t = rs.tokobj[i]
+            self.ctx.count("front-channel-artefact:%s:%s" % (key, "within-bound" if set(t.scope) <= bound else "BEYOND"))
+            if key != "code":
+                self.jwt_claim(rs, i, "authorization response")
+        acc = slots.get("access_token")
+        if acc is None:
+            return
+        t = rs.tokobj[acc]
+        stated = set(out[2] or [])
+        if stated != set(t.scope):
+            # RECORDED FINDING authz-response-states-resource-scope: the statement additionally lists scopes registered for a
+            # named resource.  Only that: the token's own scope must be within its bound and the surplus explained by the
+            # registrations of the named resources.
+            extra = stated - set(t.scope)
+            if named and self.res and set(t.scope) <= bound and extra and not (set(t.scope) - stated) and extra <= set(self.res.rscopes(client, named)):
+                pass      # reported once, by the response-scope check of __call__
+            else:
+                self.ctx.violation("view-response-vs-token", "authorization response states scope %r, the access token it carries has %r"
+                                   % (sorted(stated), t.scope), self.hist)
+        r = rs.run(("introspect", client, ("tok", acc)))
+        if r[0] == "active" and sorted(r[1]) != sorted(t.scope):
+            self.ctx.violation("view-introspection", "introspection scope %r, front-channel access token scope %r" % (r[1], t.scope), self.hist)
+        if r[0] == "active" and set(r[1]) - bound:
+            self.ctx.violation("escalation-beyond-own-authorization", "introspection states %r for the front-channel access token; its request authorised %r"
+                               % (r[1], sorted(bound)), self.hist)
+        self.ctx.count("front-channel-access-token:introspection:" + r[0])
 
     def __call__(self, rs, op, out, rec):
         self.hist.append([list(op), out])
         k = op[0]
-        if k in ("authz", "authzc") and out[0] == "ok":
-            client, scope = (op[2], op[3]) if k == "authz" else (op[3], op[4])
+        if k in ("authz", "authzc", "authzr") and out[0] == "ok":
+            client, scope = (op[2], op[3]) if k != "authzc" else (op[3], op[4])
             for i in out[1] or []:
-                if rs.tokobj[i].token_class == "authorization_code":
+                # everything an authorization response carries - the code and, for implicit / hybrid response types, the
+                # access token and the ID Token - is held against THIS request
+                if rs.tokobj[i].token_class == "authorization_code" or k == "authzr":
                     self.code_auth[i] = (client, list(scope))
                     self.requested.setdefault(rs.tok_grant[i], list(scope))
             # the scope echoed in the authorization response is requested ∩ allowed
             want = sorted(set(s for s in scope if s in allowed(rs, client)))
             if out[2] is not None and sorted(set(out[2])) != want:
-                self.ctx.violation("authz-response-scope", "authorization response scope %r, authorised %r" % (out[2], want), self.hist)
+                named = list(op[5]) if k == "authzr" and len(op) > 5 and op[5] else []
+                extra = set(out[2]) - set(want)
+                if named and self.res and extra and not (set(want) - set(out[2])) and extra <= set(self.res.rscopes(client, named)) \
+                        and all(set(rs.tokobj[i].scope) <= set(want) for i in out[1] or []):
+                    # RECORDED FINDING: the request named resources; the statement is the authorised set plus scopes the named
+                    # resources' registrations list (allowed for the client), and NO artefact of the response carries them
+                    self.ctx.violation("authz-response-states-resource-scope",
+                                       "authorization response (resource=%r) states scope %r, authorised %r; every artefact it carries has the authorised scope"
+                                       % (named, out[2], want), self.hist)
+                else:
+                    self.ctx.violation("authz-response-scope", "authorization response scope %r, authorised %r" % (out[2], want), self.hist)
+            if k == "authzr":
+                self.front_views(rs, op, out)
         if k in ("tparse", "rparse") and len(rs.parsed) > len(self.parsed):
             self.parsed.append(op)
         # every token of every grant stays within requested ∩ allowed(client)
@@ -89,8 +178,9 @@ class ScopeOracle:
                     bound = set(s for s in rsc if s in allowed(rs, rc))
                     if set(t.scope) - bound:
                         self.ctx.violation("escalation-beyond-own-authorization",
-                                           "%s %d descends from code %d, whose authorization request (client %s) asked for %r -> authorised %r, but carries %r"
-                                           % (t.token_class, rs.tokobj.index(t), root, rc, rsc, sorted(bound), list(t.scope)), self.hist)
+                                           "%s %d descends from %s %d, whose authorization request (client %s) asked for %r -> authorised %r, but carries %r"
+                                           % (t.token_class, rs.tokobj.index(t), "code" if rs.tokobj[root].token_class == "authorization_code" else "the front-channel " + rs.tokobj[root].token_class,
+                                              root, rc, rsc, sorted(bound), list(t.scope)), self.hist)
         if k == "proc" and out[0] == "ok":
             acc = out[1].get("access_token")
             if acc is not None and acc >= 0:
@@ -110,16 +200,10 @@ class ScopeOracle:
                 r = rs.run(("introspect", owner, ("tok", acc)))
                 if r[0] == "active" and sorted(r[1]) != sorted(t.scope):
                     self.ctx.violation("view-introspection", "introspection scope %r, token scope %r" % (r[1], t.scope), self.hist)
-                if t.value.count(".") == 2:      # a JWT access token: the scope claim inside it
-                    try:
-                        payload = json.loads(base64.urlsafe_b64decode(t.value.split(".")[1] + "=="))
-                        js = payload.get("scope", [])
-                        js = js.split(" ") if isinstance(js, str) else js
-                        if sorted(js) != sorted(t.scope):
-                            self.ctx.violation("view-jwt", "JWT scope claim %r, token scope %r" % (js, t.scope), self.hist)
-                        self.ctx.count("jwt-scope-checked")
-                    except Exception as e:      # noqa
-                        self.ctx.notes.append("could not decode JWT access token: %r" % e)
+                self.jwt_claim(rs, acc, "token response")      # a JWT access token: the scope claim inside it
+            idt = out[1].get("id_token")
+            if idt is not None and idt >= 0:
+                self.jwt_claim(rs, idt, "token response")
             # a refresh never goes beyond the scope of the refresh token's grant
             if op[1] < len(self.parsed) and self.parsed[op[1]][0] == "rparse":
                 ref = self.parsed[op[1]][2]
@@ -151,6 +235,41 @@ def structured():
         cases.append(("chain-%s" % ("oidc" if oidc else "oauth2"), oidc, False, ops2))
         cases.append(("no-scope-%s" % ("oidc" if oidc else "oauth2"), oidc, False,
                       [("authz", "diana", "client_12", ["openid"] if oidc else []), ("tparse", "client_12", ("tok", 0), "same"), ("proc", 0, None)]))
+    return cases
+
+
+def front_structured():
+    """Implicit and hybrid authorizations as fixed histories, both flavours, every response type: the request asks for more
+    than the client may have; whatever the response carries is introspected, the front-channel access token is used at
+    userinfo (OIDC), the hybrid code is redeemed (and replayed), the refresh token refreshed with a narrower and a wider
+    scope; a second authorization of another response type follows in the same provider."""
+    cases = []
+    k = 0
+    for oidc in (True, False):
+        for rt in (sess.RT_OIDC if oidc else ["token", "code token", "code"]):
+            cl = ["client_1", "client_2", "client_12"][k % 3]
+            req = ["openid", "address", "email", "custom", "offline_access", "phone", "profile"][: 4 + k % 4]
+            if not oidc:
+                req = req[1:] + ["offline_access"]
+            ops = [("authzr", ["diana", "babs"][k % 2], cl, req, rt)]
+            n = len(rt.split(" "))
+            ops += [("introspect", cl, ("tok", i)) for i in range(n)]
+            if oidc:
+                ops += [("userinfo", ("tok", i)) for i in range(n)]
+            p = 0
+            if "code" in rt.split(" "):
+                ops += [("tparse", cl, ("tok", 0), "same"), ("proc", 0, None), ("tparse", cl, ("tok", 0), "same"), ("proc", 1, None)]
+                p = 2
+                ops += [("introspect", cl, ("tok", i)) for i in range(n, n + 3)]
+                # refresh what the redemption returned (the refresh token is n+1 where one was issued)
+                ops += [("rparse", cl, ("tok", n + 1), ["openid"] if oidc else req[:1]), ("proc", p, None),
+                        ("rparse", cl, ("tok", n + 1), req), ("proc", p + 1, None)]
+                p += 2
+            other = (sess.RT_OIDC if oidc else sess.RT_OAUTH2)[(k + 2) % (7 if oidc else 5)]
+            ops += [("authzr", "diana", cl, list(reversed(req)), other), ("introspect", cl, ("tok", 0)), ("introspect", cl, ("tok", n))]
+            cases.append(("front-%s-%s" % ("oidc" if oidc else "oauth2", rt.replace(" ", "+")), oidc, k % 4 == 3, ops,
+                          ["explicit", "implied", "per-client", "handler", "partial"][k % 5], {"empty3": True} if k % 6 == 5 else {}))
+            k += 1
     return cases
 
 
@@ -345,6 +464,255 @@ def client_credentials_flows(ctx, rng, n):
             rs.close()
 
 
+# ------------------------------------------------------------------ (d) the RFC 8707 resource parameter
+# resource servers in the client database: name -> what is registered on top of an ordinary client record
+RESOURCES = {
+    "rs_a": {"scope": ["email", "phone", "address", "custom"],
+             "allowed_scopes": ["openid", "email", "phone", "address", "custom", "profile", "offline_access"]},
+    "rs_b": {"scope": ["profile", "offline_access", "admin"], "allowed_scopes": None},      # no allowed_scopes entry at all
+    "rs_c": {"allowed_scopes": ["openid", "phone", "email"]},                               # no scope list
+}
+# which resources each client may name (client_12 is not listed: a policy refuses whatever it names)
+PER_CLIENT = {"client_1": ["rs_a", "client_2", "rs_b", "rs_c"], "client_2": ["rs_a", "rs_c", "ghost"]}
+RESOURCE_CHOICES = [None, ["rs_a"], ["rs_a"], ["rs_c"], ["rs_a", "rs_c"], ["client_2"], ["rs_b"], ["rs_a", "rs_b"], ["ghost"],
+                    ["rs_a", "ghost"], ["client_1"], ["client_12"]]
+
+
+class ResProvider(sess.RealSession):
+    """a provider whose client database also holds resource servers, with the resource-indicator policies configured the
+    way a deployment does: as endpoint arguments (provider-wide) or inside a client's registration"""
+
+    def __init__(self, apol="none", tpol="none", client_scope=False, **kw):
+        from idpyoidc.server.oauth2.authorization import validate_resource_indicators_policy as arp
+        from idpyoidc.server.oauth2.token_helper import validate_resource_indicators_policy as trp
+        over = {"client_2": {"scope": ["address", "phone", "profile"]}} if client_scope else {}
+        super().__init__(client_over=over, **kw)
+        self.apol, self.tpol = apol, tpol
+        # what the harness registered (the oracle's and the model's inputs come from here, not from the provider's state)
+        self.reg = {c: {"allowed_scopes": self.ctx.cdb[c].get("allowed_scopes"), "scope": over.get(c, {}).get("scope")} for c in sess.CLIENTS}
+        for name, extra in RESOURCES.items():
+            rec = srv.client_record(name, **{k: v for k, v in extra.items() if v is not None})
+            if "allowed_scopes" in extra and extra["allowed_scopes"] is None:
+                rec.pop("allowed_scopes")
+            self.ctx.cdb[name] = rec
+            self.reg[name] = {"allowed_scopes": rec.get("allowed_scopes"), "scope": rec.get("scope")}
+        a_conf = {"policy": {"function": arp, "kwargs": {"resource_servers_per_client": copy.deepcopy(PER_CLIENT)}}}
+        if apol == "provider":
+            self.ep["authorization"].resource_indicators_config = a_conf
+        elif apol == "provider-list":        # one list of permitted resources for every client
+            self.ep["authorization"].resource_indicators_config = {"policy": {"function": arp, "kwargs": {"resource_servers_per_client": ["rs_a", "rs_c", "client_2"]}}}
+        elif apol == "provider-default":     # the policy with its default arguments
+            self.ep["authorization"].resource_indicators_config = {}
+        elif apol == "client":               # only client_1 has the policy, in its registration
+            self.ctx.cdb["client_1"]["resource_indicators"] = {"authorization_code": a_conf}
+        t_conf = {"policy": {"function": trp, "kwargs": {"resource_servers_per_client": copy.deepcopy(PER_CLIENT)}}}
+        if tpol == "provider":
+            self.ep["token"].kwargs["resource_indicators"] = t_conf
+        elif tpol == "client":
+            self.ctx.cdb["client_1"].setdefault("resource_indicators", {})["access_token"] = t_conf
+
+    # --- what the configuration the harness made implies (never read from the provider)
+    def _permitted_for(self, client, kind):
+        pol = self.apol if kind == "authz" else self.tpol
+        if pol == "none" or (pol == "client" and client != "client_1") or (kind == "token" and self.oidc):
+            return None                      # no policy applies
+        if pol == "provider-list":
+            return ["rs_a", "rs_c", "client_2"]
+        if pol == "provider-default":
+            return list(client) if kind == "authz" else []      # {client: client} -> the characters of the client id; token: nothing
+        return PER_CLIENT.get(client, [])
+
+    def effective_resources(self, client, named, kind="authz"):
+        """the resource list after the policy (None: refused); without policy: as named"""
+        pres = self._permitted_for(client, kind)
+        if pres is None:
+            return list(named)
+        common = [r for r in named if r in pres and r in self.reg]
+        if not common:
+            return None
+        if client not in common:
+            common.append(client)
+        if any(self.reg[r]["allowed_scopes"] is None for r in common):
+            return None                      # the policy function crashes on the missing entry: server_error
+        return common
+
+    def permitted_scopes(self, client, named, kind="authz"):
+        """None: no policy ran; else the concatenated allowed_scopes of the effective resources"""
+        if self._permitted_for(client, kind) is None:
+            return None
+        eff = self.effective_resources(client, named, kind)
+        return None if eff is None else [x for r in eff for x in self.reg[r]["allowed_scopes"]]
+
+    def rscopes(self, client, named):
+        eff = self.effective_resources(client, named, "authz") or []
+        return [x for r in eff if r in self.reg for x in (self.reg[r]["scope"] or [])]
+
+    # --- operations
+    def op_authzr(self, user, client, scope, rtype, resource=None):
+        out = self.op_authz(user, client, scope, rtype=rtype, extra={"resource": list(resource)} if resource else None)
+        if out[0] != "ok":
+            return out
+        slots = {}
+        for i in out[1] or []:
+            slots[{"authorization_code": "code"}.get(self.tokobj[i].token_class, self.tokobj[i].token_class)] = i
+        return out + [slots]
+
+    def op_tokr(self, client, ref, resource=None, scope=None):
+        """code redemption in one go, optionally with resource and scope parameters"""
+        body = {"grant_type": "authorization_code", "code": self.tokval(ref), "redirect_uri": self.redirect_for(client, ref, "same")}
+        if resource:
+            body["resource"] = list(resource)
+        if scope is not None:
+            body["scope"] = scope
+        ep = self.ep["token"]
+        p = ep.parse_request(self._token_req(client, body))
+        e = self.err_of(p)
+        if e:
+            return ["err", e]
+        res = ep.process_request(p)
+        new = self.harvest()
+        ra = res.get("response_args") if isinstance(res, dict) and "response_args" in res else res
+        e = self.err_of(ra)
+        if e:
+            return ["err", e, new]
+        out = {}
+        for key in ("access_token", "refresh_token", "id_token"):
+            if key in ra:
+                out[key] = self.tokens.index(ra[key]) if ra[key] in self.tokens else -1
+        sc = ra.get("scope")
+        if isinstance(sc, str):
+            sc = sc.split(" ")
+        return ["ok", out, new, sc]
+
+
+ACASES = []
+TCASES = []
+# fixed flows first (deterministic witnesses of the two recorded findings, and their clean counterparts):
+# (oidc, jwt, apol, tpol, client_scope, [(client, rtype, scope, resource, token-request resource, token-request scope)])
+FIXED_RES_FLOWS = [
+    (False, True, "none", "none", False, [("client_1", "token", ["profile"], ["rs_a"], None, None),
+                                          ("client_1", "code token", ["profile", "offline_access"], ["rs_a"], None, None)]),
+    (False, False, "none", "provider", False, [("client_1", "code", ["profile", "offline_access"], None, ["rs_a"], None),
+                                               ("client_1", "code", ["profile"], None, ["rs_a"], ["email"]),
+                                               ("client_1", "code token", ["profile", "email"], None, ["rs_a"], ["profile", "email"])]),
+    (True, True, "provider", "none", True, [("client_1", "code id_token token", ["openid", "profile", "custom"], ["rs_a"], None, None),
+                                            ("client_1", "id_token token", ["openid", "phone"], ["client_2"], None, None),
+                                            ("client_2", "token", ["openid", "profile"], ["rs_a", "rs_c"], None, None)]),
+    (True, False, "client", "none", True, [("client_1", "code token", ["openid", "address", "email"], ["rs_a"], None, None),
+                                           ("client_2", "code token", ["openid", "custom"], ["rs_a"], None, None)]),
+]
+
+
+def resource_flows(ctx, rng, n):
+    """(d): authorizations of every response type that name resources; every scope statement reachable is held against the
+    bound computed from what the harness sent and registered: requested ∩ allowed_scopes of the client"""
+    APOL = ["none", "provider", "client", "none", "provider-list", "provider-default"]
+    for i in range(n):
+        if i < len(FIXED_RES_FLOWS):
+            oidc, jwt, apol, tpol, cscope, steps = FIXED_RES_FLOWS[i]
+        else:
+            oidc, jwt = (i % 2 == 0), (i % 4 < 2)
+            apol = APOL[(i // 2) % len(APOL)]
+            tpol = "none" if oidc else ["none", "provider", "client"][(i // 3) % 3]
+            cscope = (i % 3 != 0)
+            steps = None
+        rs = ResProvider(apol=apol, tpol=tpol, client_scope=cscope, oidc=oidc, jwt_access=jwt, empty3=(i % 7 == 6),
+                         rules=["explicit", "implied", "handler"][i % 3])
+        ctx.count("resource-flow-provider:%s:authz-policy-%s:token-policy-%s:%s" % ("oidc" if oidc else "oauth2", apol, tpol, "jwt" if jwt else "opaque"))
+        try:
+            orc = ScopeOracle(ctx, res=rs)
+            minted = False
+            rec = []
+            for j in range(len(steps) if steps else rng.randint(2, 4)):
+                if steps:
+                    client, rtype, scope, resource, tres, tscope = steps[j]
+                else:
+                    client = rng.choice(["client_1", "client_1", "client_2", "client_12"])
+                    rtype = rng.choice(sess.RT_OIDC[:6] if oidc else ["token", "code token", "code", "code token"])
+                    scope = rng.sample(sess.SCOPES, rng.randint(1, 5))
+                    if oidc and "openid" not in scope:
+                        scope.insert(0, "openid")
+                    resource = rng.choice(RESOURCE_CHOICES)
+                    tres = rng.choice([None, resource, ["rs_a"], ["rs_c"]]) if rs._permitted_for(client, "token") is None else rng.choice([resource, ["rs_a"], ["rs_a", "rs_c"], ["rs_b"], None])
+                    tscope = rng.choice([None, None, list(scope), rng.sample(sess.SCOPES, 2), "email", " ".join(scope)])
+                op = ("authzr", rng.choice(sess.USERS) if not steps else "diana", client, list(scope), rtype, resource)
+                out = rs.run(op)
+                rec.append([list(op), out])
+                orc(rs, op, out, None)
+                ctx.count("resource-authz:%s:%s:%s" % ("named" if resource else "no-resource", rtype.replace(" ", "+"), out[0] if out[0] != "err" else "err:" + str(out[1])))
+                if out[0] != "ok":
+                    if len(out) > 2 and out[2]:
+                        ctx.violation("refused-but-minted", "the authorization was refused (%r) and tokens were minted: %r" % (out[1], out[2]), rec)
+                    continue
+                minted = True
+                slots = out[3]
+                g = rs.grants[rs.tok_grant[out[1][0]]][1]
+                # the decision as a model case: what the harness sent and registered -> what was observed
+                named = list(resource or [])
+                perm = rs.permitted_scopes(client, named) if named else None
+                if named and rs._permitted_for(client, "authz") is not None and perm is None:
+                    ctx.violation("resource-policy-not-applied", "the policy configured for %s must refuse resource=%r; the request was answered" % (client, named), rec)
+                else:
+                    o = lambda key: "(Some %s)" % sess.coq_strs(list(rs.tokobj[slots[key]].scope)) if key in slots else "None"
+                    ACASES.append(("(%s, %s, %s, %s, (%s, %s, %s, %s, %s))" % (
+                        sess.coq_strs(scope), sess.coq_strs(allowed(rs, client)), "None" if perm is None else "(Some %s)" % sess.coq_strs(perm),
+                        sess.coq_strs(rs.rscopes(client, named) if named else []), sess.coq_strs(list(g.scope)), o("code"), o("access_token"), o("id_token"),
+                        sess.coq_strs(out[2] or [])), {"flow": "authz-decision", "op": list(op), "out": out, "permitted": perm}))
+                # the code (hybrid / code): redeemed, possibly with resource / scope parameters; then refreshed
+                if "code" in slots:
+                    tp = rs._permitted_for(client, "token")
+                    top = ("tokr", client, ("tok", slots["code"]), tres, tscope)
+                    tout = rs.run(top)
+                    rec.append([list(top), tout])
+                    ctx.count("resource-token:%s:%s:%s" % ("policy" if tp is not None else "no-policy", "resource" if tres else "no-resource", tout[0] if tout[0] != "err" else "err:" + str(tout[1])))
+                    orc.hist.append([list(top), tout])
+                    bound = set(x for x in scope if x in allowed(rs, client))
+                    if tout[0] == "ok":
+                        acc = tout[1].get("access_token")
+                        if acc is not None and acc >= 0:
+                            t = rs.tokobj[acc]
+                            stated = list(tout[3] or [])
+                            if set(t.scope) - bound:
+                                ctx.violation("escalation", "access token redeemed with resource=%r carries %r beyond the authorised %r" % (tres, t.scope, sorted(bound)), rec)
+                            if sorted(stated) != sorted(t.scope):
+                                if tp is not None and set(t.scope) <= bound:
+                                    # RECORDED FINDING: under the token endpoint's resource policy the statement is the token
+                                    # REQUEST's scope cut down by the resources, not the token's scope
+                                    ctx.violation("token-response-scope-under-resource-policy",
+                                                  "token response (resource=%r, scope parameter %r) states scope %r, the access token has %r" % (tres, tscope, stated, t.scope), rec)
+                                else:
+                                    ctx.violation("view-response-vs-token", "token response states scope %r, the access token has %r" % (stated, t.scope), rec)
+                            r = rs.run(("introspect", client, ("tok", acc)))
+                            if r[0] == "active" and sorted(r[1]) != sorted(t.scope):
+                                ctx.violation("view-introspection", "introspection scope %r, token scope %r" % (r[1], t.scope), rec)
+                            orc.jwt_claim(rs, acc, "token response (resource flow)")
+                            if tp is not None and not isinstance(tscope, str):
+                                tperm = rs.permitted_scopes(client, list(tres or []), "token")
+                                if tperm is not None:
+                                    TCASES.append(("(%s, %s, %s, (%s, %s))" % (sess.coq_strs(list(g.scope)), sess.coq_strs(tscope or []), sess.coq_strs(tperm),
+                                                                           sess.coq_strs(list(t.scope)), sess.coq_strs(stated)),
+                                                   {"flow": "token-ri-decision", "op": list(top), "out": tout, "permitted": tperm}))
+                        if tout[1].get("id_token", -1) >= 0:
+                            orc.jwt_claim(rs, tout[1]["id_token"], "token response (resource flow)")
+                        rt = tout[1].get("refresh_token")
+                        if rt is not None and rt >= 0 and tp is None:
+                            for rsc in (None, sorted(bound)[:1], sorted(bound) + ["phone", "custom"]):
+                                rop = ("rparse", client, ("tok", rt), rsc)
+                                rout = rs.run(rop)
+                                rec.append([list(rop), rout])
+                                orc(rs, rop, rout, None)
+                                if rout[0] == "ok":
+                                    pop = ("proc", len(rs.parsed) - 1, None)
+                                    pout = rs.run(pop)
+                                    rec.append([list(pop), pout])
+                                    orc(rs, pop, pout, None)
+                    # whatever happened: every token in the provider within the bound of its own authorization
+                    orc(rs, ("tick", 0), ["ok"], None)
+            ctx.case_seen({"flow": "resource", "oidc": oidc, "jwt": jwt, "authz_policy": apol, "token_policy": tpol, "ops": rec}, minted)
+        finally:
+            rs.close()
+
+
 def jwt_histories(ctx, rng, n):
     """JWT access tokens: oracle only (the model's token-resolution clauses are about the opaque handlers)."""
     for i in range(n):
@@ -352,7 +720,7 @@ def jwt_histories(ctx, rng, n):
         rs.model_compared = False      # oracle only: cookie-carrying requests also where the usage rules are per client
         try:
             orc = ScopeOracle(ctx)
-            plan = sess.gen_history(rng, rng.randint(10, 30), focus="cookie" if i % 3 != 2 else "mixed", p_cookie=0.4)
+            plan = sess.gen_history(rng, rng.randint(10, 30), focus="cookie" if i % 3 != 2 else "mixed", p_cookie=0.4, p_front=0.5)
             pairs, rec = sess.run_history(rs, plan, lambda r, o, x: orc(r, o, x, None))
             ctx.case_seen({"flow": "jwt-access-history", "ops": rec}, any(o[0] == "proc" and x[0] == "ok" for o, x in rec))
         finally:
@@ -363,12 +731,18 @@ def run(ctx):
     def factory():
         return [ScopeOracle(ctx)]
     n = 30 if ctx.quick else 1200
-    common.run_histories(ctx, n, (15, 50), factory, structured=structured() + common.cookie_structured(), cookie=True,
-                         focus_of=lambda i: "cookie" if i % 3 != 2 else "mixed")
+    common.run_histories(ctx, n, (15, 50), factory, structured=structured() + common.cookie_structured() + front_structured(), cookie=True,
+                         focus_of=lambda i: "cookie" if i % 3 != 2 else "mixed", front=0.35)
     exchange_flows(ctx, ctx.rng, 16 if ctx.quick else 400)
     client_credentials_flows(ctx, ctx.rng, 8 if ctx.quick else 200)
-    jwt_histories(ctx, ctx.rng, 6 if ctx.quick else 200)
+    jwt_histories(ctx, ctx.rng, 8 if ctx.quick else 200)
+    resource_flows(ctx, ctx.rng, 40 if ctx.quick else 600)
     imp = ["Lib.Base", "Lib.PyStr", "Model.ScopeFlows"]
+    ctx.coq_check_cases(imp, "list pystr * list pystr * option (list pystr) * list pystr * (list pystr * option (list pystr) * option (list pystr) * option (list pystr) * list pystr)",
+                        "chk_authz", list(ACASES), shard=300, label="authz_res")
+    ctx.coq_check_cases(imp, "list pystr * list pystr * list pystr * (list pystr * list pystr)", "chk_token_ri", list(TCASES), shard=300, label="token_ri")
+    del ACASES[:]
+    del TCASES[:]
     ctx.coq_check_cases(imp, "list pystr * option (list pystr) * list pystr * bool * option (list pystr)", "chk_exchange", list(XCASES), shard=300, label="exchange")
     ctx.coq_check_cases(imp, "option (list pystr) * list pystr", "chk_cc", list(CCASES), shard=300, label="cc")
     del XCASES[:]
